@@ -21,6 +21,20 @@ theorem post_writeOut {st : St} (hI : Inv st) (b : List UInt8) :
   · split <;> exact Nat.le_refl _
   · split <;> exact ⟨rfl, rfl⟩
 
+theorem post_noteHazard {st : St} (hI : Inv st) (c : Bool) (k n : String) :
+    Post (noteHazard c k n) st (fun _ s => s.frames = st.frames ∧ s.cur = st.cur) := by
+  unfold noteHazard
+  split
+  · exact Post.modify (hI.update rfl hI.cur rfl hI.cache) (Nat.le_refl _) ⟨rfl, rfl⟩
+  · exact Post.pure hI ⟨rfl, rfl⟩
+
+/-- instrumentation does not matter: continue from a state with the same frames -/
+theorem noteHazard_bind {st : St} (hI : Inv st) (c : Bool) (k n : String) {f : Unit → M β} {R : β → St → Prop}
+    (h : ∀ s, Inv s → s.frames.size = st.frames.size → Post (f ()) s R) : Post (noteHazard c k n >>= f) st R := by
+  refine Post.bind (post_noteHazard hI c k n) ?_
+  intro _ s hIs _ hs
+  exact h s hIs (by rw [hs.1])
+
 theorem runM_curEnv (st : St) : runM curEnv st = (.ok st.cur, st) := rfl
 
 theorem post_evalIdentifier {st : St} (hI : Inv st) (name : String) : Post (evalIdentifier name) st OkO := by
@@ -112,9 +126,13 @@ theorem post_evalIndexAssignment {st : St} (hI : Inv st) (which : Node) {index v
         · exact Post.pure hIs' okObj_err
         · dsimp only
           refine Post.ite (fun _ => Post.pure hIs' okObj_err) (fun _ => ?_)
-          refine Post.bind (post_envSet hIs' hcur id (val := newArray _) (by simp only [newArray, okObj]; exact okList_set hval hv')) ?_
+          refine Post.bind_read (runM_get s') ?_
+          refine noteHazard_bind hIs' _ _ _ ?_
+          intro s2 hIs2 hsz2
+          refine Post.bind (post_envSet hIs2 (by omega) id (val := newArray _)
+            (by simp only [newArray, okObj]; rw [hsz2]; exact okList_set hval hv')) ?_
           intro oerr s'' hIs'' hle' ho
-          exact post_errOr hIs'' ho (okObj_mono hle' _ hv')
+          exact post_errOr hIs'' ho (okObj_mono (by omega) _ hv')
       · next big kvs =>
         simp only [okObj] at hval
         refine Post.bind_read (runM_get s') ?_
@@ -122,9 +140,11 @@ theorem post_evalIndexAssignment {st : St} (hI : Inv st) (which : Node) {index v
           (Post.liftR hIs' (mapSet_npr _ _ _ _ _) (fun res hres => ⟨rfl, mapSet_ok hval hi' hv' hres⟩)) ?_
         rintro ⟨big', kvs'⟩ s'' hIs'' _ ⟨rfl, hk⟩
         dsimp only
-        refine Post.bind (post_envSet hIs'' hcur id (val := .map big' kvs') (by simpa [okObj] using hk)) ?_
+        refine noteHazard_bind hIs'' _ _ _ ?_
+        intro s2 hIs2 hsz2
+        refine Post.bind (post_envSet hIs2 (by omega) id (val := .map big' kvs') (by rw [hsz2]; simpa [okObj] using hk)) ?_
         intro oerr s3 hIs3 hle' ho
-        exact post_errOr hIs3 ho (okObj_mono hle' _ hv')
+        exact post_errOr hIs3 ho (okObj_mono (by omega) _ hv')
       · exact Post.pure hIs' okObj_err
   · exact Post.pure hI okObj_err
 
@@ -150,7 +170,9 @@ theorem post_deleteMapEntry {st : St} (hI : Inv st) (left : Node) (index : Obj) 
         split
         · exact Post.pure hIs'' (by simp [OkO, okObj])
         · next kvs' =>
-          refine Post.bind (post_envSet hIs'' hcur id (val := .map big kvs') (by simpa [okObj] using hk kvs' rfl)) ?_
+          refine noteHazard_bind hIs'' _ _ _ ?_
+          intro s2 hIs2 hsz2
+          refine Post.bind (post_envSet hIs2 (by omega) id (val := .map big kvs') (by rw [hsz2]; simpa [okObj] using hk kvs' rfl)) ?_
           intro oerr s3 hIs3 hle' ho
           exact post_errOr hIs3 ho (by simp [okObj])
       · exact Post.pure hIs okObj_err
@@ -317,29 +339,59 @@ theorem post_extendFunctionEnv {st : St} (hI : Inv st) {f : FuncVal} (hf : f.env
     exact hf
   · rintro nenv s hIs hle ⟨rfl, hsz, _⟩
     have hn : st.frames.size < s.frames.size := by omega
-    obtain ⟨ha, he⟩ := splitArgs_ok (n := st.frames.size) f hargs
-    generalize splitArgs f args = sp at ha he
-    obtain ⟨params, args', extra⟩ := sp
-    dsimp only at ha he ⊢
-    split
-    · exact Post.pure hIs ⟨fun _ h => (by cases h), fun e h => (by cases h; exact okObj_err)⟩
-    · refine Post.bind (post_bindParams (params.zip args') hIs hn ?_) ?_
-      · intro p a hpa
-        exact okObj_mono hle _ ((okList_iff.1 ha) a (List.of_mem_zip hpa).2)
-      · intro r s' hIs' hle' hr
-        split
-        · next oerr => exact Post.pure hIs' ⟨fun _ h => (by cases h), fun e h => (by cases h; exact hr oerr rfl)⟩
-        · have hfin : ∀ s2 : St, Inv s2 → s'.frames.size ≤ s2.frames.size →
-              Post (pure (Except.ok st.frames.size) : M (Except Obj Nat)) s2 (fun r s =>
-                (∀ nenv, r = .ok nenv → nenv < s.frames.size) ∧ (∀ e, r = .error e → okObj s.frames.size e = true)) := by
-            intro s2 hIs2 hle2
-            exact Post.pure hIs2 ⟨fun _ h => (by cases h; omega), fun e h => (by cases h)⟩
+    have hrest : ∀ (args2 : List Obj) (s2 : St), Inv s2 → s.frames.size ≤ s2.frames.size →
+        okList s.frames.size args2 = true →
+        Post (if ((splitArgs f args2).2.fst.length != (splitArgs f args2).fst.length) = true then
+            pure (Except.error (err "wrong number of arguments"))
+          else do
+            let __do_lift ← bindParams st.frames.size ((splitArgs f args2).fst.zip (splitArgs f args2).2.fst)
+            match __do_lift with
+              | some oerr => pure (Except.error oerr)
+              | none =>
+                if f.variadic = true then do
+                  let _ ← setNoChecks st.frames.size ".." (newArray (splitArgs f args2).2.snd) true
+                  pure (Except.ok st.frames.size)
+                else pure (Except.ok st.frames.size)) s2 (fun r s =>
+          (∀ nenv, r = .ok nenv → nenv < s.frames.size) ∧ (∀ e, r = .error e → okObj s.frames.size e = true)) := by
+      intro args2 s2 hIs2 hle2 hargs2
+      obtain ⟨ha, he⟩ := splitArgs_ok (n := s.frames.size) f hargs2
+      generalize splitArgs f args2 = sp at ha he
+      obtain ⟨params, args', extra⟩ := sp
+      dsimp only at ha he ⊢
+      split
+      · exact Post.pure hIs2 ⟨fun _ h => (by cases h), fun e h => (by cases h; exact okObj_err)⟩
+      · refine Post.bind (post_bindParams (params.zip args') hIs2 (by omega) ?_) ?_
+        · intro p a hpa
+          exact okObj_mono (by omega) _ ((okList_iff.1 ha) a (List.of_mem_zip hpa).2)
+        · intro r s' hIs' hle' hr
           split
-          · refine Post.bind (post_setNoChecks hIs' (by omega) ".." (val := newArray extra) ?_ true) ?_
-            · simp only [newArray, okObj]
-              exact okList_mono (by omega) _ he
-            · intro _ s2 hIs2 hle2 _
-              exact hfin s2 hIs2 hle2
-          · exact hfin s' hIs' (Nat.le_refl _)
+          · next oerr => exact Post.pure hIs' ⟨fun _ h => (by cases h), fun e h => (by cases h; exact hr oerr rfl)⟩
+          · have hfin : ∀ s3 : St, Inv s3 → s'.frames.size ≤ s3.frames.size →
+                Post (pure (Except.ok st.frames.size) : M (Except Obj Nat)) s3 (fun r s =>
+                  (∀ nenv, r = .ok nenv → nenv < s.frames.size) ∧ (∀ e, r = .error e → okObj s.frames.size e = true)) := by
+              intro s3 hIs3 hle3
+              exact Post.pure hIs3 ⟨fun _ h => (by cases h; omega), fun e h => (by cases h)⟩
+            split
+            · refine Post.bind (post_setNoChecks hIs' (by omega) ".." (val := newArray extra) ?_ true) ?_
+              · simp only [newArray, okObj]
+                exact okList_mono (by omega) _ he
+              · intro _ s3 hIs3 hle3 _
+                exact hfin s3 hIs3 hle3
+            · exact hfin s' hIs' (Nat.le_refl _)
+    refine Post.ite (fun _ => ?_) (fun _ => ?_)
+    · split
+      · next last hl =>
+        have hlast : okObj st.frames.size last = true := (okList_iff.1 hargs) _ (List.mem_of_getLast? hl)
+        refine Post.bind (post_valueOf hIs (okObj_mono hle _ hlast)) ?_
+        rintro v s1 hIs1 _ ⟨rfl, hv, _⟩
+        refine Post.bind_read (runM_pure _ s1) ?_
+        refine hrest _ s1 hIs1 (Nat.le_refl _) ?_
+        refine okList_append ?_ (by simp [okList, hv])
+        rw [okList_iff]
+        exact fun x hx => okObj_mono hle _ ((okList_iff.1 hargs) x (List.dropLast_subset _ hx))
+      · refine Post.bind_read (runM_pure _ s) ?_
+        exact hrest _ s hIs (Nat.le_refl _) (okList_mono hle _ hargs)
+    · refine Post.bind_read (runM_pure _ s) ?_
+      exact hrest _ s hIs (Nat.le_refl _) (okList_mono hle _ hargs)
 
 end Grol.E
